@@ -670,6 +670,12 @@ def apply_regex_rewrites(text, rewrites, log, label, rule='R8'):
         rname = rw[3] if len(rw) > 3 else rule
         new, n = re.subn(pat, repl, text)
         if count is not None and n != count:
+            if n == 0:
+                # the construct this rewrite translates is absent from this tree (a change removed or re-spelled it):
+                # nothing to translate; if an unsupported spelling is left behind the verifier rejects the function
+                # and the item is isolated (UNDECIDED), otherwise the obligations decide on the new text
+                log.append((rname, '%s: rewrite %r has nothing to rewrite in this tree' % (label, pat)))
+                continue
             raise Undecided('%s: rewrite %r expected %s matches, found %d' % (label, pat, count, n))
         if n:
             log.append((rname, '%s: %r -> %r x%d' % (label, pat, repl, n)))
